@@ -1239,3 +1239,236 @@ Section Strict.
                     (JMap [("l", JList [JInt 2; JInt 1; JInt 1])]) = MDone true.
   Proof. reflexivity. Qed.
 End Strict.
+
+(* ---------- side conditions under which the two readings coincide ---------- *)
+
+Definition no_bools (l : list json) : bool := forallb (fun x => negb (is_bool x)) l.
+
+(* no list of the value directly holds a boolean *)
+Fixpoint nobool_lists (j : json) : bool :=
+  match j with
+  | JList l => no_bools l && forallb nobool_lists l
+  | JMap kvs =>
+      (fix go (l : list (string * json)) : bool :=
+         match l with [] => true | (_, v) :: r => nobool_lists v && go r end) kvs
+  | _ => true
+  end.
+
+Lemma nobool_map_In kvs k v : nobool_lists (JMap kvs) = true -> In (k, v) kvs -> nobool_lists v = true.
+Proof.
+  induction kvs as [|[k0 v0] r IH]; cbn; [tauto|].
+  rewrite Bool.andb_true_iff. intros [H1 H2] [[= -> ->]|Hin]; auto.
+Qed.
+
+Lemma nobool_map_intro kvs : (forall k v, In (k, v) kvs -> nobool_lists v = true) -> nobool_lists (JMap kvs) = true.
+Proof.
+  induction kvs as [|[k0 v0] r IH]; cbn; intros H; [reflexivity|].
+  rewrite (H k0 v0) by auto. cbn. apply IH. intros; eapply H; eauto.
+Qed.
+
+Lemma nobool_list_inv l : nobool_lists (JList l) = true ->
+  no_bools l = true /\ forall x, In x l -> nobool_lists x = true.
+Proof. cbn. rewrite Bool.andb_true_iff, forallb_forall. tauto. Qed.
+
+Section Regular.
+  Variable key_text : json -> string.
+
+  Definition all_plain (ks : list string) : bool := forallb (fun k => negb (is_directive k)) ks.
+
+  (* what [regular] asks of the value under a non-directive key *)
+  Definition entry_ok (reg : json -> bool) (sk : list string) (mf : list (string * list json))
+             (k : string) (v : json) : bool :=
+    match lookup k mf with
+    | Some fields =>
+        (* map-directed: a non-empty list of objects, keyed by at least one
+           field, every object regular, no key text a directive name *)
+        match fields, v with
+        | _ :: _, JList (x :: xs) =>
+            forallb is_map (x :: xs) && forallb reg (x :: xs) &&
+            match keyed key_text fields (x :: xs) [] with
+            | Some o => all_plain (map fst o)
+            | None => false
+            end
+        | _, _ => false
+        end
+    | None =>
+        match v with
+        (* set-directed: no booleans among the members *)
+        | JList items => if mem_str k sk then no_bools items else forallb reg items
+        | _ => reg v
+        end
+    end.
+
+  (* [regular t]: the expectation uses the directives as documented *)
+  Fixpoint regular (t : json) : bool :=
+    match t with
+    | JList l => forallb regular l
+    | JMap kvs =>
+        match set_keys kvs, map_fields kvs with
+        | Some sk, Some mf =>
+            (fix go (l : list (string * json)) : bool :=
+               match l with
+               | [] => true
+               | (k, v) :: r => (is_directive k || entry_ok regular sk mf k v) && go r
+               end) kvs
+        | _, _ => false
+        end
+    | _ => true
+    end.
+
+  (* the same for a value sitting under a set-directed key *)
+  Definition regular_s (s : bool) (t : json) : bool :=
+    match t with
+    | JList l => if s then no_bools l else forallb regular l
+    | _ => regular t
+    end.
+
+  Lemma regular_s_false t : regular_s false t = regular t.
+  Proof. destruct t; reflexivity. Qed.
+
+  Lemma regular_map_inv tk :
+    regular (JMap tk) = true ->
+    exists sk mf, set_keys tk = Some sk /\ map_fields tk = Some mf /\
+      forall k v, In (k, v) tk -> is_directive k = false -> entry_ok regular sk mf k v = true.
+  Proof.
+    cbn [regular]. destruct (set_keys tk) as [sk|]; [|discriminate].
+    destruct (map_fields tk) as [mf|]; [|discriminate]. intros H. exists sk, mf. repeat split.
+    induction tk as [|[k0 v0] r IH]; [intros ? ? []|].
+    apply Bool.andb_true_iff in H as [H1 H2]. intros k v [[= -> ->]|Hin] Hd; [|eauto].
+    rewrite Hd in H1. exact H1.
+  Qed.
+
+  Lemma keyed_all_maps fields l : forall acc o,
+    fields <> [] -> keyed key_text fields l acc = Some o -> forallb is_map l = true.
+  Proof.
+    induction l as [|it r IH]; cbn; intros acc o Hf H; [reflexivity|].
+    destruct (item_key key_text it fields) as [k0|] eqn:E; [|discriminate].
+    rewrite (IH _ _ Hf H), Bool.andb_true_r.
+    unfold item_key in E. destruct fields; [congruence|]. destruct it; try discriminate. reflexivity.
+  Qed.
+
+  Lemma set_key_nonempty {A} k (v : A) acc : set_key k v acc <> [].
+  Proof. destruct acc as [|[k0 v0] r]; cbn; [discriminate|]. destruct (String.eqb k k0); discriminate. Qed.
+
+  Lemma keyed_nonempty fields l : forall acc o,
+    keyed key_text fields l acc = Some o -> (l <> [] \/ acc <> []) -> o <> [].
+  Proof.
+    induction l as [|it r IH]; cbn; intros acc o H Hne.
+    - injection H as <-. destruct Hne; congruence.
+    - destruct (item_key key_text it fields) as [k0|]; [|discriminate].
+      eapply IH; eauto. right. apply set_key_nonempty.
+  Qed.
+
+  Lemma all_plain_no_directive (o : list (string * json)) d :
+    all_plain (map fst o) = true -> is_directive d = true -> lookup d o = None.
+  Proof.
+    intros H Hd. apply lookup_none_notin. intros Hin.
+    unfold all_plain in H. rewrite forallb_forall in H. apply H in Hin. rewrite Hd in Hin. discriminate.
+  Qed.
+
+  Lemma regular_keyed o :
+    all_plain (map fst o) = true -> (forall k v, In (k, v) o -> regular v = true) -> regular (JMap o) = true.
+  Proof.
+    intros Hp Hv. cbn [regular].
+    unfold set_keys, map_fields.
+    rewrite (all_plain_no_directive o K_SET Hp eq_refl), (all_plain_no_directive o K_MAP Hp eq_refl).
+    induction o as [|[k0 v0] r IH]; [reflexivity|].
+    cbn in Hp. apply Bool.andb_true_iff in Hp as [Hp0 Hp]. apply Bool.negb_true_iff in Hp0.
+    rewrite Hp0. cbn [orb]. apply Bool.andb_true_iff. split.
+    - unfold entry_ok. cbn [lookup mem_str]. specialize (Hv k0 v0 (or_introl eq_refl)).
+      destruct v0; auto.
+    - apply IH; auto. intros; eapply Hv; cbn; eauto.
+  Qed.
+
+  Notation equivX := (equiv py_eq (list_to_object key_text)).
+  Notation equivS := (equiv strict_eq (keyed_list key_text)).
+
+  Lemma no_bools_In l x : no_bools l = true -> In x l -> is_bool x = false.
+  Proof. unfold no_bools. rewrite forallb_forall. intros H Hin. apply H, Bool.negb_true_iff in Hin. exact Hin. Qed.
+
+  (* under the side conditions the reading the comparator implements implies the strict one *)
+  Lemma equiv_lax_strict s t a :
+    equivX s t a -> regular_s s t = true -> nobool_lists a = true -> equivS s t a.
+  Proof.
+    induction 1 as [s t a Ht Ha He|s b|tl al Hl Hp IH|tl al Ht Ha H1 H2
+                   |s tk ak sk mf Hsk Hmf Hk Hn Hm IHm Ho IHo]; intros Hr Hb.
+    - now apply Eq_scalar.
+    - apply Eq_bool.
+    - apply Eq_list; auto. intros i x y Hx Hy. eapply IH; eauto.
+      + rewrite regular_s_false. cbn in Hr. rewrite forallb_forall in Hr. apply Hr. eapply nth_error_In; eauto.
+      + apply nobool_list_inv in Hb as [_ Hb]. apply Hb. eapply nth_error_In; eauto.
+    - cbn in Hr. apply nobool_list_inv in Hb as [Hb _].
+      apply Eq_set; auto.
+      + intros x Hx. destruct (H1 x Hx) as (y & Hy & E). exists y. split; auto.
+        unfold strict_eq. rewrite E, (no_bools_In _ _ Hr Hx), (no_bools_In _ _ Hb Hy). reflexivity.
+      + intros y Hy. destruct (H2 y Hy) as (x & Hx & E). exists x. split; auto.
+        unfold strict_eq. rewrite E, (no_bools_In _ _ Hr Hx), (no_bools_In _ _ Hb Hy). reflexivity.
+    - change (regular_s s (JMap tk)) with (regular (JMap tk)) in Hr.
+      destruct (regular_map_inv _ Hr) as (sk' & mf' & Hsk' & Hmf' & Hent).
+      rewrite Hsk in Hsk'. rewrite Hmf in Hmf'. injection Hsk' as <-. injection Hmf' as <-.
+      (* facts about one map-directed key *)
+      assert (Hdir : forall k v w fields, is_directive k = false -> lookup k tk = Some v ->
+                lookup k ak = Some w -> lookup k mf = Some fields ->
+                exists o ao, keyed_list key_text fields v = Some o /\ keyed_list key_text fields w = Some ao /\
+                             equivS false (JMap o) (JMap ao)).
+      { intros k v w fields Hd Hv Hw Hf.
+        pose proof (Hent k v (lookup_In_pair _ _ _ Hv) Hd) as Eok. unfold entry_ok in Eok. rewrite Hf in Eok.
+        destruct fields as [|f0 fr]; [discriminate|]. destruct v as [| | | | |[|x xs]|]; try discriminate.
+        apply Bool.andb_true_iff in Eok as [Eok Ek]. apply Bool.andb_true_iff in Eok as [Emaps Ereg].
+        destruct (keyed key_text (f0 :: fr) (x :: xs) []) as [o|] eqn:Eo; [|discriminate].
+        assert (Kv : keyed_list key_text (f0 :: fr) (JList (x :: xs)) = Some o).
+        { unfold keyed_list. now rewrite Emaps. }
+        pose proof (keyed_list_lax key_text _ _ _ Kv) as Lv.
+        destruct (Hn k _ w _ Hd Hv Hw Hf) as [_ Nw].
+        destruct (list_to_object key_text (f0 :: fr) w) as [ao|] eqn:Lw; [|congruence].
+        pose proof (Hm k _ w _ o ao Hd Hv Hw Hf Lv Lw) as Hx.
+        assert (Hone : o <> []) by (eapply keyed_nonempty; eauto; left; discriminate).
+        (* w is a list of objects *)
+        assert (Kw : keyed_list key_text (f0 :: fr) w = Some ao).
+        { unfold FnTestMatch.list_to_object in Lw. destruct (iter_items w) as [its|] eqn:Ei; [|discriminate].
+          assert (Hmaps : forallb is_map its = true) by (apply (keyed_all_maps (f0 :: fr) its [] ao); [discriminate|exact Lw]).
+          destruct w; cbn in Ei; try discriminate; injection Ei as <-.
+          - (* a str: no characters, so ao = [] *)
+            destruct (utf8_chars s0); [|discriminate]. cbn in Lw. injection Lw as <-.
+            exfalso. destruct o as [|[k0 v0] o']; [congruence|].
+            inversion Hx as [? ? ? Hp'|?|?|?|? ? ? ? ? _ _ Hkeys _ _ _]; subst; [discriminate|].
+            cbn in Ek. apply Bool.andb_true_iff in Ek as [Ek0 _]. apply Bool.negb_true_iff in Ek0.
+            apply (Hkeys k0 Ek0). cbn. auto.
+          - unfold keyed_list. now rewrite Hmaps.
+          - destruct kvs; [|discriminate]. cbn in Lw. injection Lw as <-.
+            exfalso. destruct o as [|[k0 v0] o']; [congruence|].
+            inversion Hx as [? ? ? Hp'|?|?|?|? ? ? ? ? _ _ Hkeys _ _ _]; subst; [discriminate|].
+            cbn in Ek. apply Bool.andb_true_iff in Ek as [Ek0 _]. apply Bool.negb_true_iff in Ek0.
+            apply (Hkeys k0 Ek0). cbn. auto. }
+        exists o, ao. repeat split; auto.
+        apply (IHm k _ w _ o ao Hd Hv Hw Hf Lv Lw).
+        - apply regular_keyed; auto. intros k' v' Hin.
+          destruct (keyed_In key_text _ _ _ _ _ _ Eo Hin) as [Hi|[]].
+          rewrite forallb_forall in Ereg. auto.
+        - apply nobool_map_intro. intros k' v' Hin.
+          unfold keyed_list in Kw. destruct w; try discriminate. destruct (forallb is_map l); [|discriminate].
+          destruct (keyed_In key_text _ _ _ _ _ _ Kw Hin) as [Hi|[]].
+          apply lookup_In_pair in Hw. pose proof (nobool_map_In _ _ _ Hb Hw) as Hbw.
+          apply nobool_list_inv in Hbw as [_ Hbw]. auto. }
+      apply Eq_map with (sk := sk) (mf := mf); auto.
+      + intros k v w fields Hd Hv Hw Hf.
+        destruct (Hdir k v w fields Hd Hv Hw Hf) as (o & ao & -> & -> & _). split; discriminate.
+      + intros k v w fields tobj aobj Hd Hv Hw Hf Et Ea.
+        destruct (Hdir k v w fields Hd Hv Hw Hf) as (o & ao & Eo & Eao & Hx).
+        rewrite Eo in Et. rewrite Eao in Ea. injection Et as <-. injection Ea as <-. exact Hx.
+      + intros k v w Hd Hv Hw Hf. apply (IHo k v w Hd Hv Hw Hf).
+        * pose proof (Hent k v (lookup_In_pair _ _ _ Hv) Hd) as Eok. unfold entry_ok in Eok. rewrite Hf in Eok.
+          unfold regular_s. destruct v; auto.
+        * apply lookup_In_pair in Hw. eapply nobool_map_In; eauto.
+  Qed.
+
+  (* tmatch_iff, strict reading, for every regular expectation *)
+  Theorem tmatch_iff_regular t a :
+    regular t = true -> nobool_lists a = true ->
+    (tmatch key_text t a = MDone true <-> equivS false t a).
+  Proof.
+    intros Hr Hb. split.
+    - intros H. apply tmatch_exact in H. apply equiv_lax_strict; auto. now rewrite regular_s_false.
+    - apply tmatch_complete.
+  Qed.
+End Regular.
